@@ -143,9 +143,13 @@ def tlc(module, cfg, wd, env=None, workers=None, simulate=None, depth=None,
     elif not res.completed and simulate is None:
         bad = "TLC did not complete"
     if bad:
-        tail = "\n".join(
-            l for l in res.lines if not l.startswith(('"V ', '"CASE ', "Linting"))
-        )[-3000:]
+        keep = [l for l in res.lines if not l.startswith(('"V ', '"CASE ', "Linting", "Parsing file",
+                                                          "Semantic processing"))]
+        heads = []
+        for i, l in enumerate(keep):
+            if l.startswith("Error:") or "Exception" in l or "Overflow" in l:
+                heads += keep[i:i + 6]
+        tail = "\n".join(heads[:40] + ["..."] + keep[-12:])[-4000:]
         raise MachineryError("%s on %s/%s:\n%s" % (bad, module, cfg, tail))
     return res
 
